@@ -82,6 +82,41 @@ def main():
             return 2
         print(f'SELFTEST-OK determinism: {total} runs identical across 4 executions each')
         return 0
+    if args.cmd == 'reach':
+        # reach probes: a probe stuck at zero means the workload or fault mix no longer reaches that condition
+        import checks
+        from sim import runner
+        required = {
+            ('grow', 'C02'): ['probe:map-promoted-from-loc_is_iloc', 'probe:growth-after-cache-materialised', 'fault:construct-duplicate', 'fault:growth-duplicate'],
+            ('grow', 'C05'): ['probe:growth-after-cache-materialised', 'query-cache:cold', 'query-cache:warm', 'query:frame', 'query:series', 'fault:growth-non-tree-reentry'],
+            ('grow', 'C09'): ['probe:valid-growth-after-failed-growth', 'probe:extend-from-pool-member', 'fault:caller-writes-to-retained-buffer',
+                              'fault:growth-duplicate-columns-partial', 'fault:growth-pairs-iterable-fails', 'fault:growth-value-iterable-fails'],
+            ('store', 'C17'): ['probe:evict', 'probe:evicted-frame-previously-addressed', 'probe:served-after-heal', 'probe:access-while-stale',
+                               'probe:generator-advanced-between-other-ops', 'probe:export-and-reopen', 'fault:fired-oserror', 'fault:fired-vanish',
+                               'fault:fs-replace_older', 'fault:fs-truncate', 'fault:fs-delete', 'fault:stale-read-raised'],
+            ('pool', 'C18'): ['probe:out-of-order-completion', 'probe:several-tasks-in-flight', 'pool:completed-at-submit-time', 'pool:chunked-map',
+                              'fault:worker-crash-surfaced', 'fault:task-failure-surfaced', 'fault:unpicklable-surfaced'],
+            ('pool', 'C18T'): ['probe:pre-empted-inside-task', 'pool:lock-contention', 'pool:thread-switches'],
+            ('quilt', 'C19'): ['probe:operation-on-quilt-with-unresolved-axis-map', 'probe:quilt-drove-bus-at-its-max_persist-limit',
+                               'probe:direct-bus-access-between-quilt-operations', 'probe:served-from-memory-while-stale', 'fault:stale-read-raised'],
+            ('pool', 'C19B'): ['batch:direct-equal', 'batch:export-checked', 'probe:out-of-order-completion'],
+            ('alias', 'C01'): ['fault:adversary-write', 'fault:failing-call', 'fault:write-to-handed-array-refused', 'fault:mutation-attempt-refused'],
+        }
+        bad = 0
+        known = runner.load_known()
+        for prop, parts in sorted(checks.CHECKS.items()):
+            for part in parts:
+                W = checks.world_by_name(part['world'])
+                sigs = frozenset(k['signature'] for k in known if k.get('status') == 'known')
+                tot = runner.run_batch(W, part['profile'], 'quick', args.base, 3000, 60, min(8, os.cpu_count() or 4), known_sigs=sigs)
+                for key in required.get((part['world'], part['profile']), []):
+                    n = sum(v for k, v in tot['stats'].items() if k == key or k.startswith(key))
+                    flag = 'ok' if n > 0 else 'STUCK-AT-ZERO'
+                    if n == 0:
+                        bad += 1
+                    print(f"reach {part['world']}/{part['profile']} {key}: {n} {flag}")
+        print('SELFTEST-OK reach' if not bad else f'SELFTEST-ERROR {bad} probes stuck at zero')
+        return 0 if not bad else 2
     print('unknown command')
     return 2
 
